@@ -131,6 +131,23 @@ def gen_instance(rng, nmax=10, nu=0, m=0, tie_free=False, kinds=("feat", "mat", 
 # ----------------------------------------------------------------------------------------
 # running the implementation
 
+def embed_matrix(D):
+    """Embed the N x N matrix D into a larger matrix through a random injective row map idx (point a -> row idx[a]),
+    all other entries being garbage, so that a node's position and its row index differ (the code must go through
+    nodes[.].idx on both axes). Deterministic in D."""
+    N = len(D)
+    r = random.Random(hash(tuple(map(tuple, D))) & 0xFFFFFFFF)
+    M = N + r.randint(0, 3)
+    idx = r.sample(range(M), N)
+    if r.random() < 0.25:
+        idx = list(range(N)); M = N          # the identity layout stays in the mix
+    big = [[float(r.randint(0, 9)) + 0.5 for _ in range(M)] for _ in range(M)]
+    for a in range(N):
+        for b in range(N):
+            big[idx[a]][idx[b]] = D[a][b]
+    return np.array(big, dtype=float), np.array(idx)
+
+
 def make_model(inst, cls):
     """Construct the model in the branch matching the instance (metric on features, or pre-computed matrix)."""
     if inst.X is not None:
@@ -139,10 +156,11 @@ def make_model(inst, cls):
         return opf, X, None
     opf = cls()
     opf.pre_computed_distance = True
-    opf.pre_distances = np.array(inst.D, dtype=float)
+    big, idx = embed_matrix(inst.D)
+    opf.pre_distances = big
     N = len(inst.D)
     X = np.zeros((N, 1))
-    return opf, X, np.arange(N)
+    return opf, X, idx
 
 
 def node_state(sg):
@@ -174,7 +192,10 @@ def impl_semi_fit(inst):
     from opfython.models.semi_supervised import SemiSupervisedOPF
     opf, X, I = make_model(inst, SemiSupervisedOPF)
     n, nu = inst.n, inst.nu
-    opf.fit(X[:n].copy(), np.array(inst.labels), X[n:n + nu].copy(), None if I is None else I[:n])
+    if I is None:
+        opf.fit(X[:n].copy(), np.array(inst.labels), X[n:n + nu].copy())
+    else:
+        opf.fit(X[:n].copy(), np.array(inst.labels), X[n:n + nu].copy(), I[:n], I[n:n + nu])
     return opf, node_state(opf.subgraph)
 
 
@@ -187,7 +208,8 @@ def impl_predict(opf, inst, rows=None):
         preds = opf.predict(Xq)
     else:
         Xq = np.zeros((len(rows), 1))
-        preds = opf.predict(Xq, np.array(rows))
+        _, idx = embed_matrix(inst.D)
+        preds = opf.predict(Xq, idx[np.array(rows, dtype=int)])
     return [int(p) for p in preds], [int(x.relevant) for x in opf.subgraph.nodes]
 
 
